@@ -15,13 +15,20 @@ NAMES = ['x', 'y']
 
 
 class Conc(object):
-    def __init__(self, p, variant=0, taint=False, names=None, imports=False, heavy=(), listcomp=False, store=None, witness=False):
+    def __init__(self, p, variant=0, taint=False, names=None, imports=False, heavy=(), listcomp=False, store=None, witness=False, wrap=False, deco=()):
         self.p = p
         self.par, self.kind, self.uses = p['par'], p['kind'], p['uses']
         self.n = len(self.par)
         self.names = [nm for nm in NAMES if nm in self.uses[0]]
         self.cn = dict(CONCRETE)
         self.cn['w'] = 'ww'
+        # decorations: mentions of the program's names in positions that bind nothing or are evaluated elsewhere
+        #   'ann'  a value-less annotation `xx: int` at the top of the module for names the module itself never stores (binds nothing at run time)
+        #   'del'  `del xx` in function scopes that declare xx global without storing it (a mention, judged like a read)
+        #   'hdr'  reads in the annotations of *args / **kwargs of every function (evaluated in the scope that contains the def)
+        self.deco = set(deco)
+        self.del_tags = []
+        self.wrap = wrap            # the stores of every statement scope sit one level down, in the body of an `if` (same scope, another suite)
         self.witness = witness      # every function body and the module also bind and read a name of their own (`w`): something that can be renamed in every program
         if names:
             self.cn.update(names)
@@ -89,6 +96,10 @@ class Conc(object):
     def body(self, s, ind):
         pad = '    ' * ind
         out = []
+        if s == 1 and 'ann' in self.deco:
+            for nm in self.names:
+                if not ({'store', 'param', 'gdecl', 'ndecl'} & set(self.u(1, nm))):
+                    out.append('%s: int' % self.cn[nm])
         if s != 1:
             out.append(pad + 'emit(%d, 0)' % self.marker(s))
         for how, kw in (('gdecl', 'global'), ('ndecl', 'nonlocal')):
@@ -98,6 +109,12 @@ class Conc(object):
                 out.append(pad + kw + ' ' + ', '.join(self.cn[nm] for nm in declared))
                 for nm in declared:
                     self.decl.append({'scope': s, 'name': nm, 'how': how})
+
+        if 'del' in self.deco and s != 1 and self.kind[s - 1] == 'f':
+            for nm in self.names:
+                if 'gdecl' in self.u(s, nm) and 'store' not in self.u(s, nm):
+                    self.del_tags.append(int(self.T(s, nm, 'load')))
+                    out += [pad + 'try: del ' + self.cn[nm], pad + 'except NameError: emit(-2, 0)']
 
         def loads():
             r = []
@@ -125,10 +142,13 @@ class Conc(object):
                     else:
                         r.append(pad + '%s = %s' % (self.cn[nm], self.T(s, nm, 'store')))
             return r
+        st_lines = stores()
+        if self.wrap and st_lines:
+            st_lines = [pad + 'if emit.k == 0:'] + ['    ' + l for l in st_lines]
         if self.variant == 0:
-            out += stores() + loads()
+            out += st_lines + loads()
         else:
-            out += loads() + stores()
+            out += loads() + st_lines
         if self.witness and (s == 1 or self.kind[s - 1] == 'f'):
             out.append(pad + '%s = %s' % (self.cn['w'], self.T(s, 'w', 'store')))
             out.append(pad + 'emit(%s, %s)' % (self.T(s, 'w', 'load'), self.cn['w']))
@@ -140,7 +160,11 @@ class Conc(object):
                 params = [nm for nm in self.names if 'param' in self.u(c, nm)]
                 fname = 'f%d' % c
                 self.helpers.append(fname)
-                out.append(pad + 'def %s(%s):' % (fname, ', '.join(self.cn[nm] for nm in params)))
+                plist = [self.cn[nm] for nm in params]
+                if 'hdr' in self.deco and self.names:
+                    plist.append('*va: emit(%s, %s)' % (self.T(s, self.names[0], 'load'), self.cn[self.names[0]]))
+                    plist.append('**kw: emit(%s, %s)' % (self.T(s, self.names[-1], 'load'), self.cn[self.names[-1]]))
+                out.append(pad + 'def %s(%s):' % (fname, ', '.join(plist)))
                 out += self.body(c, ind + 1)
                 out += self.guarded(pad, '%s(%s)' % (fname, ', '.join(self.T(c, nm, 'param') for nm in params)))
             elif k == 'c':
@@ -216,6 +240,19 @@ def read_back(out_src, conc):
         if len(imps) != len(conc.import_tags):
             return None, None
         for tag, nm in zip(conc.import_tags, imps):
+            found[tag] = nm
+    if conc.del_tags:
+        dels = []
+
+        def order_del(node):
+            for ch in ast.iter_child_nodes(node):
+                if isinstance(ch, ast.Delete) and len(ch.targets) == 1 and isinstance(ch.targets[0], ast.Name):
+                    dels.append(ch.targets[0].id)
+                order_del(ch)
+        order_del(t)
+        if len(dels) != len(conc.del_tags):
+            return None, None
+        for tag, nm in zip(conc.del_tags, dels):
             found[tag] = nm
     # parameters: k-th parameter of the scope's function, matched through the call-site tag order
     for s in range(2, conc.n + 1):
@@ -295,7 +332,7 @@ def observe(job):
     """job: {id, p, variant, opts: {rl, rg, taint, presL, presG}}.  Returns the Trace_Rename observation record (or a skip marker)."""
     import python_minifier
     o = job['opts']
-    conc = Conc(job['p'], variant=job.get('variant', 0), taint=o.get('taint', False), names=job.get('names'), imports=job.get('imports', False), heavy=job.get('heavy', ()), listcomp=job.get('listcomp', False), store=job.get('store'), witness=job.get('witness', False))
+    conc = Conc(job['p'], variant=job.get('variant', 0), taint=o.get('taint', False), names=job.get('names'), imports=job.get('imports', False), heavy=job.get('heavy', ()), listcomp=job.get('listcomp', False), store=job.get('store'), witness=job.get('witness', False), wrap=job.get('wrap', False), deco=job.get('deco', ()))
     src = conc.src
     try:
         compile(src, 'in', 'exec')
@@ -305,6 +342,8 @@ def observe(job):
     pl = list(helpers) + [conc.cn[n] for n in o.get('presL', [])]
     pg = list(helpers) + [conc.cn[n] for n in o.get('presG', [])]
     extra = {}
+    if 'hdr' in conc.deco:
+        extra['remove_annotations'] = False          # the reads under test are in annotations: they have to stay
     if conc.store == 'ann':
         # every kind of annotation removal on, so that the annotated assignments are rebuilt as plain ones (also in class bodies)
         from python_minifier.transforms.remove_annotations_options import RemoveAnnotationsOptions
@@ -349,3 +388,77 @@ def observe(job):
     if trig:
         rec['trigger_names'] = sorted(trig)
     return rec
+
+
+# ---------------------------------------------------------------------------------------------------------------------------------
+def py2_compatible(p):
+    """no nonlocal declarations and no assignment expressions (neither exists on 2.x)"""
+    return not any(h in ('ndecl', 'walrus') for u in p['uses'] for hs in u.values() for h in hs)
+
+
+def _first_in_class(conc, x):
+    """the first parameter of a function defined directly in a class body (self): documented as renamable"""
+    s_ = x['scope']
+    if x['how'] != 'param' or conc.kind[s_ - 1] != 'f' or conc.kind[conc.par[s_ - 1] - 1] != 'c':
+        return False
+    params = [o2 for o2 in conc.occ if o2['scope'] == s_ and o2['how'] == 'param']
+    return bool(params) and params[0]['tag'] == x['tag']
+
+
+def observe_remote(version, jobs, procs=8):
+    """the same observation with minify() running under another interpreter (through harness/worker.py).  For 2.x the comprehension scopes of a
+    program are written as list comprehensions, which have NO scope of their own there: their occurrences are re-attributed to the scope the
+    comprehension stands in before the record is judged (the projection of the abstract program onto what it means on 2.x)."""
+    from . import pool, inputs
+    import base64
+    concs = {}
+    reqs = []
+    for job in jobs:
+        o = job['opts']
+        conc = Conc(job['p'], variant=job.get('variant', 0), taint=o.get('taint', False), names=job.get('names'), heavy=job.get('heavy', ()),
+                    listcomp=True, store=job.get('store'), witness=job.get('witness', False), wrap=job.get('wrap', False))
+        helpers = sorted(set(conc.helpers + ['NameError', 'eval']))
+        opts = dict(rename_locals=o['rl'], rename_globals=o['rg'], preserve_locals=helpers + [conc.cn[n] for n in o.get('presL', [])],
+                    preserve_globals=helpers + [conc.cn[n] for n in o.get('presG', [])], hoist_literals=False, constant_folding=False, remove_pass=False,
+                    combine_imports=False)
+        concs[job['id']] = (conc, job)
+        reqs.append({'op': 'minify', 'id': job['id'], 'src_b64': inputs.b64(conc.src.encode()), 'as_bytes': False, 'opts': opts})
+    res = pool.run_requests(version, reqs, procs=procs, timeout=300)
+    out = []
+    for rid, (conc, job) in concs.items():
+        a = res.get(rid, {})
+        if 'worker_error' in a or not a:
+            out.append({'id': rid, 'skip': 'worker-error'})
+            continue
+        if not a.get('compiles'):
+            out.append({'id': rid, 'skip': 'input-does-not-compile', 'src': conc.src})
+            continue
+        if a.get('outcome') != 'return':
+            out.append({'id': rid, 'skip': 'minify-raised', 'src': conc.src, 'msg': a.get('outcome', '') + ' ' + str(a.get('msg', ''))[:100]})
+            continue
+        text = base64.b64decode(a['out_b64']).decode('utf-8')
+        try:
+            found, decl_out = read_back(text, conc)
+        except SyntaxError:
+            found = None
+        if found is None:
+            out.append({'id': rid, 'skip': 'projection-failed', 'src': conc.src, 'out': text})
+            continue
+        aliases = found.pop('__aliases__')
+        inv = {v: k for k, v in conc.cn.items()}
+        o = job['opts']
+
+        def land(s):
+            # on 2.x a list comprehension is not a scope: what is written in it happens in the scope it stands in
+            while version.startswith('2') and conc.kind[s - 1] == 'g':
+                s = conc.par[s - 1]
+            return s
+        rec = {'id': rid, 'par': conc.par, 'kind': conc.kind, 'compiles': bool(a.get('compiles_out', True)), 'run_equal': True,
+               'rl': bool(o['rl']), 'rg': bool(o['rg']), 'tainted': bool(o.get('taint', False)), 'presL': list(o.get('presL', [])), 'presG': list(o.get('presG', [])),
+               'occ': [{'scope': land(x['scope']), 'name': x['name'], 'how': x['how'], 'out': inv.get(found[x['tag']], found[x['tag']]),
+                        'self_param': _first_in_class(conc, x)} for x in conc.occ],
+               'alias': [{'scope': al['scope'], 'new': inv.get(al['new'], al['new']), 'old': inv.get(al['old'], al['old'])} for al in aliases],
+               'decl': [{'scope': d['scope'], 'name': d['name'], 'how': d['how'], 'out': inv.get(n2, n2)} for d, n2 in zip(conc.decl, decl_out)],
+               'src': conc.src, 'out_src': text}
+        out.append(rec)
+    return out
